@@ -13,6 +13,7 @@ pub const OPS: &[&str] = &[
     "parse", "parse_io", "parse_datum", "print", "print_elisp", "display", "to_vec", "to_ref_vec", "into_vec", "cons_to_vec",
     "iter", "list_iter", "into_iter", "get", "index", "is_list", "clone", "eq", "drop", "datum_clone", "datum_eq", "datum_drop",
     "datum_list_iter", "datum_to_value", "to_value", "from_value", "serde_text", "value_list", "value_append", "alist_get",
+    "parse_err", "parse_datum_err", "datum_tail", "datum_from_ref", "datum_pair_walk",
 ];
 
 fn build(n: usize, dotted: bool) -> Value {
@@ -56,6 +57,54 @@ pub fn run_op(op: &str, n: usize, dotted: bool) {
         "datum_drop" => { let d = datum(); drop(d); }
         "datum_list_iter" => { let d = datum(); assert!(d.list_iter().unwrap().count() >= n); }
         "datum_to_value" => { let d = datum(); let v: Value = d.into(); assert!(v.is_cons()); }
+        // a long list that ends badly: the parser has to unwind what it has built
+        "parse_err" => {
+            for bad in [&t[..t.len() - 1], &format!("{}]", &t[..t.len() - 1])[..], &format!("{} . )", &t[..t.len() - 1])[..]] {
+                assert!(lexpr::from_str(bad).is_err());
+                assert!(lexpr::from_slice(bad.as_bytes()).is_err());
+                assert!(lexpr::from_reader(bad.as_bytes()).is_err());
+            }
+        }
+        "parse_datum_err" => {
+            for bad in [&t[..t.len() - 1], &format!("{}]", &t[..t.len() - 1])[..], &format!("{} . )", &t[..t.len() - 1])[..]] {
+                assert!(lexpr::datum::from_reader(bad.as_bytes()).is_err());
+                let mut p = lexpr::Parser::from_reader(bad.as_bytes());
+                assert!(p.expect_datum().is_err());
+            }
+        }
+        // owned datums made from inner references: their span chains do not start at a list head
+        "datum_tail" => {
+            let d = datum();
+            let tail: lexpr::Datum = d.as_ref().as_pair().unwrap().1.into();
+            let tail2 = tail.clone();
+            assert!(tail == tail2);
+            drop(d);
+            drop(tail);
+            assert!(tail2.value().is_cons());
+            drop(tail2);
+        }
+        "datum_from_ref" => {
+            let d = datum();
+            let e: lexpr::Datum = d.as_ref().into();
+            assert!(d == e);
+            let first: lexpr::Datum = d.list_iter().unwrap().next().unwrap().into();
+            assert!(!first.value().is_cons());
+            drop(e);
+        }
+        "datum_pair_walk" => {
+            // walk the cdr chain with as_pair, turning every 1000th tail into an owned datum
+            let d = datum();
+            let mut r = d.as_ref();
+            let mut i = 0usize;
+            let mut kept = Vec::new();
+            while let Some((_, cdr)) = r.as_pair() {
+                if i % 100_000 == 1 { kept.push(lexpr::Datum::from(cdr)); }
+                r = cdr;
+                i += 1;
+            }
+            assert_eq!(i, n);
+            drop(kept);
+        }
         #[cfg(feature = "with-serde")]
         "to_value" => { let xs: Vec<i64> = (0..n as i64).collect(); let v = serde_lexpr::to_value(&xs).unwrap(); assert!(v.is_cons()); }
         #[cfg(feature = "with-serde")]
